@@ -1,7 +1,7 @@
 (* C07 — Finalizer ordering safety in controller-driven lifecycles. Statements only.
    Machine: GenCtl.q_step (qtransform.QController.Reconcile as a sequence of runtime-API calls, each executed
    atomically by Access.a_apply; any store operation of any other party between any two calls). *)
-From Verif Require Import Store Helpers DepDB Access GenCtl GenCtlProofs Cleanup CleanupProofs Transform TransformProofs.
+From Verif Require Import Store Helpers DepDB Access GenCtl GenCtlProofs Cleanup CleanupProofs Transform TransformProofs Destroy DestroyProofs.
 Open Scope N_scope.
 
 (* for every schedule of worker calls, transform faults, restarts and environment operations that respect
@@ -97,3 +97,25 @@ Theorem C07_transform_remfin_only_without_output : forall ns tin tout cname x s 
   TInv ns tin tout cname x s -> ts_pc s = TRemFin e -> ~ owned_out ns tout cname x (ts_store s).
 Proof. exact t_remfin_only_without_output. Qed.
 Print Assumptions C07_transform_remfin_only_without_output.
+
+(* destroy.Controller (Destroy.v): in every state - hence on every schedule, whatever the other parties do - a worker
+   step either leaves the store alone or removes its item, which at that instant has no owner and no finalizers *)
+Theorem C07_destroy_controller_writes : forall ns typ cname now x s,
+  ds_store (d_step ns typ cname x s (DStep now)) = ds_store s \/
+  (exists inp cur, ds_pc s = DDestroy inp /\ st_get (dkey ns typ x) (ds_store s) = Some cur /\
+                   r_owner cur = 0 /\ r_fins cur = [] /\
+                   ds_store (d_step ns typ cname x s (DStep now)) = st_del (dkey ns typ x) (ds_store s)).
+Proof. exact d_step_writes. Qed.
+Print Assumptions C07_destroy_controller_writes.
+
+(* ... and, while no other party removes or revives a tearing-down item (removing it is this controller's task),
+   every removal hits an item that is marked tearing down.  Without that hypothesis it is false: Destroy goes by
+   pointer, not by version (DestroyProofs.d_destroys_running_without_env_hypothesis) *)
+Theorem C07_destroy_controller_only_torn_down : forall ns typ cname x l now,
+  d_env_respects ns typ cname x (mkDS [] (DDone true)) l ->
+  let s := d_run ns typ cname x (mkDS [] (DDone true)) l in
+  ds_store (d_step ns typ cname x s (DStep now)) <> ds_store s ->
+  exists cur, st_get (dkey ns typ x) (ds_store s) = Some cur /\ r_phase cur = true /\ r_owner cur = 0 /\
+              r_fins cur = [] /\ st_get (dkey ns typ x) (ds_store (d_step ns typ cname x s (DStep now))) = None.
+Proof. exact d_destroy_only_torn_down. Qed.
+Print Assumptions C07_destroy_controller_only_torn_down.
